@@ -272,6 +272,7 @@ pub fn run_pcase(case: &PCase) {
             sim.other(op, if case.polls == 0 { "while the call is created but not polled" } else { "while the call is suspended" });
         }
     }
+    let completed_at_once = done.is_some();
     // ---- resume or drop
     if done.is_none() && case.resume {
         seams::set_now_ns(sim.now);
@@ -363,6 +364,12 @@ pub fn run_pcase(case: &PCase) {
             }
         }
         sim.now = now_end;
+    }
+    if completed_at_once {
+        // control runs: the victim was an ordinary call, the same program follows it
+        for op in &case.during {
+            sim.other(op, "after the call completed");
+        }
     }
     // ---- afterwards the cache behaves as the model says
     for op in &case.post {
@@ -485,6 +492,17 @@ fn child_fails(dir: &PathBuf, case: &PCase, clause: &str) -> bool {
     matches!(st.map(|s| s.code()), Ok(Some(1)))
 }
 
+/// Does the case fail at all (any clause) in a fresh process?
+fn child_fails_any(dir: &PathBuf, case: &PCase) -> bool {
+    std::fs::create_dir_all(dir.join("tmp")).ok();
+    let path = dir.join("tmp").join(format!("ctl-poll-{}.json", std::process::id()));
+    let rp = Replay { property: "C20".into(), clause: "*".into(), signature: String::new(), detail: String::new(), engine: "poll".into(), run_seed: 0, case: serde_json::to_value(case).unwrap() };
+    std::fs::write(&path, serde_json::to_string(&rp).unwrap()).expect("write");
+    let st = std::process::Command::new(std::env::current_exe().unwrap()).arg("replay").arg(&path).arg("--quiet").stdout(std::process::Stdio::null()).stderr(std::process::Stdio::null()).status();
+    let _ = std::fs::remove_file(&path);
+    matches!(st.map(|s| s.code()), Ok(Some(1)))
+}
+
 fn minimise(dir: &PathBuf, case: &PCase, clause: &str) -> PCase {
     let mut best = case.clone();
     let budget = std::time::Duration::from_secs(15);
@@ -559,7 +577,18 @@ pub fn run_batch(prop: &str, seed: u64, start: u64, runs: u64, dir: &PathBuf, kn
                 if res.samples.len() < 2 && polls == 1 {
                     res.samples.push(serde_json::json!({"run": run, "run_seed": run_seed, "function": format!("{} #[{}]", spec(case.f).fn_name, spec(case.f).attrs), "case": case}));
                 }
-                if let Some(c) = out {
+                if let Some(mut c) = out {
+                    if c.owned_by(prop) {
+                        // control: the same history with the victim as an ordinary, uninterrupted
+                        // call. If that fails too the defect is not about suspension / cancellation.
+                        let mut ctl = case.clone();
+                        ctl.polls = 200;
+                        ctl.resume = true;
+                        if child_fails_any(dir, &ctl) {
+                            c.owners.retain(|o| o != "C20");
+                            res.counters.inc("control.uninterrupted_run_fails_too");
+                        }
+                    }
                     if c.owned_by(prop) {
                         let sig = format!("{}|{:?}|{}|polls={}|resume={}", c.name, spec(case.f).policy, if spec(case.f).has_inv_on { "inv_on" } else { "-" }, polls.min(1), resume);
                         if known.contains(&sig) {
@@ -597,7 +626,7 @@ pub fn replay(rp: &Replay, path: &str, quiet: bool) -> i32 {
     let case: PCase = serde_json::from_value(rp.case.clone()).expect("case");
     crate::scen::calibrate();
     match execute(&case) {
-        Some(c) if c.name == rp.clause && c.owned_by(&rp.property) => {
+        Some(c) if rp.clause == "*" || (c.name == rp.clause && c.owned_by(&rp.property)) => {
             if !quiet {
                 println!("  case: {}", serde_json::to_string(&case).unwrap());
                 println!("VIOLATION property={} replay={}", rp.property, path);
